@@ -131,8 +131,11 @@ func child(specFile string) {
 
 var nameAlpha = []string{"A", "B", "PATH", "x", "Z_9", "a.b", "né", "K k", "名", "HOME", "_", "a-b", "Q", "LONGER_NAME_1", "é",
 	// names that mean something to a JavaScript object: the environment is data, whatever the names
-	"__proto__", "constructor", "toString", "hasOwnProperty", "valueOf", "length", "0", "__defineGetter__"}
-var valPieces = []string{"", "=", "==", "a", "b c", " ", "é", "日本", "x=y", "=lead", "trail=", "/usr/bin:/bin", "\t", "\"q\"", "a=b=c", "🙂", "%41", "$HOME"}
+	"__proto__", "constructor", "toString", "hasOwnProperty", "valueOf", "length", "0", "__defineGetter__",
+	// names that mean something to the host process, its run-time system or to Node: still just data in process.env
+	"TZ", "TZ", "GODEBUG", "GOMAXPROCS", "LANG", "LC_ALL", "TMPDIR", "NODE_ENV", "NODE_OPTIONS", "NODE_PATH", "PWD", "USER", "SHELL", "HOSTNAME"}
+var valPieces = []string{"", "=", "==", "a", "b c", " ", "é", "日本", "x=y", "=lead", "trail=", "/usr/bin:/bin", "\t", "\"q\"", "a=b=c", "🙂", "%41", "$HOME",
+	"UTC", "UTC", "Europe/London", "America/New_York", "C", "en_US.UTF-8", "production", "1", "/tmp"}
 
 func genName(r *lib.Rand, used map[string]bool) string {
 	for {
